@@ -37,7 +37,7 @@ from pathlib import Path
 
 import numpy as np
 
-from mc.core import HarnessError
+from mc.core import Ctx, HarnessError
 
 from molli.chem import Atom, AtomType, Bond, BondType, Molecule
 
@@ -224,11 +224,14 @@ def build(case, seed, rep="members"):
         a.attrib[HINT] = case["hint"]
     atoms = [a]
     coords = [off]
-    for (el, _), d in zip(case["nbrs"], pose):
+    nbr_hints = case.get("nbr_hints") or ()
+    for n, ((el, _), d) in enumerate(zip(case["nbrs"], pose)):
         if el == "M":
             b = Atom(26, atype=10) if plain else Atom("Fe", atype=AtomType.CoordinationCenter)
         else:
             b = Atom(Z_OF[el], atype=1, formal_charge=np.int64(0), formal_spin=np.int64(0)) if plain else Atom(el)
+        if n < len(nbr_hints) and nbr_hints[n] is not None:
+            b.attrib[HINT] = nbr_hints[n]
         atoms.append(b)
         coords.append(off + (rz @ d) * NBR_LEN[el] * scale)
     # bystanders: must receive nothing
@@ -236,6 +239,8 @@ def build(case, seed, rep="members"):
     coords.append(off + np.array([7.0, 7.5, 8.0]))
     atoms.append(Atom(26) if plain else Atom("Fe"))
     coords.append(off + np.array([-7.0, 7.5, -8.0]))
+    for n, x in enumerate(atoms):
+        x.label = f"a{n}"
     m = Molecule(atoms, copy_atoms=False)
     m.coords = np.array(coords, dtype=float)
     for (el, bt), b in zip(case["nbrs"], atoms[1 : 1 + k]):
@@ -327,7 +332,7 @@ def unit(v):
     return v / n if n > 0 else v
 
 
-def verify(m, snap, whole=False, notes=None):
+def verify(m, snap, whole=False, notes=None, selected=None):
     """-> (violations [(signature, what)], per-atom observation for the outcome digest)
 
     `whole`: molecule not generated by the grammar (geometry may be degenerate: the direction clause
@@ -339,6 +344,14 @@ def verify(m, snap, whole=False, notes=None):
     atoms = list(m.atoms)
     bonds = list(m.bonds)
     # ---- frame: everything that existed is untouched ------------------------------------------------
+    if len({id(a) for a in atoms}) != len(atoms):
+        old_ids = {id(a) for a in snap["atoms"]}
+        again = sum(1 for a in atoms[n0:] if id(a) in old_ids)
+        rows = np.asarray(m.coords)
+        tail = rows[n0:] if rows.ndim == 2 and rows.shape[0] >= n0 else rows
+        nanrows = int(np.sum(~np.isfinite(tail).all(axis=-1))) if tail.size else 0
+        out.append(("atom-list:existing-atom-listed-again", f"the atom list holds the same Atom object more than once ({again} pre-existing atoms were appended again; {nanrows} appended coordinate rows are not finite)"))
+        return out, None
     if len(atoms) < n0 or any(a is not b for a, b in zip(atoms[:n0], snap["atoms"])):
         out.append(("unchanged:atom-list", "the pre-existing atoms are no longer the first atoms of the molecule (object identity/order)"))
         return out, None
@@ -429,6 +442,11 @@ def verify(m, snap, whole=False, notes=None):
                 out.append((f"bystander[{kind}]:received-hydrogens", f"atom Z={z} outside groups 13-16 received {len(got)} hydrogens"))
             continue
         hint = snap["hints"][i]
+        if selected is not None and i not in selected:
+            # an explicit call that does not name this atom: nothing for it
+            if got:
+                out.append(("subset-call:unselected-atom-received-hydrogens", f"Z={z} (atom {i}) was not named in the call and received {len(got)} hydrogens"))
+            continue
         if hint is None and (i in unknown_order or fc is None or fs is None):
             continue
         exp = due(z, fc or 0, fs or 0, bonded[i], hint)
@@ -437,7 +455,8 @@ def verify(m, snap, whole=False, notes=None):
         if len(got) != exp:
             frac = "fractional" if bonded[i] != math.floor(bonded[i]) else "integer"
             sym = "too-few" if len(got) < exp else "too-many"
-            out.append((f"count[{src};bonded-valence-{frac};due-{exp}]:{sym}", f"Z={z} charge={fc} spin={fs} hint={hint} bonded valence={bonded[i]:g} ({len(nbrs[i])} neighbours): {len(got)} hydrogens added, {exp} due"))
+            neg = hint is None and fs is not None and fs < 0
+            out.append((f"count[formula;negative-spin]:{sym}" if neg else f"count[{src};bonded-valence-{frac};due-{exp}]:{sym}", f"Z={z} charge={fc} spin={fs} hint={hint} bonded valence={bonded[i]:g} ({len(nbrs[i])} neighbours): {len(got)} hydrogens added, {exp} due"))
         if not got:
             continue
         # placement
@@ -530,20 +549,28 @@ def make_repro(snap, case):
     return "\n".join(lines) + "\n"
 
 
-def evaluate(ctx, m, whole=False, second=True, keyclass=None, count=True):
-    """call once (and twice when hint-free) and judge -> (violations [(sig, what)], observation, snapshot)"""
+def evaluate(ctx, m, whole=False, second=True, keyclass=None, count=True, args=None, selected=None, hints=None):
+    """call once (and twice when hint-free) and judge -> (violations [(sig, what)], observation, snapshot)
+
+    args/selected: an explicit-atom call add_implicit_hydrogens(*args) that names the atoms with the
+    indices `selected` (no second call then)."""
     snap = snapshot(m)
+    if hints is not None:
+        # call sequences: the hint an atom is owed is the one it carried when the sequence began
+        snap["hints"] = list(hints) + [None] * (len(snap["atoms"]) - len(hints))
     hinted = any(h is not None for h in snap["hints"])
     if count:
         ctx.count(evaluations=1, traces=1, states=1, transitions=1)
+    if args is not None:
+        second = False
     try:
         with warnings.catch_warnings():
             warnings.simplefilter("ignore")
-            r = m.add_implicit_hydrogens()
+            r = m.add_implicit_hydrogens(*(args or ()))
     except Exception as e:
         return [(f"raised[{keyclass or 'environment'}]:{type(e).__name__}", f"add_implicit_hydrogens() raised {type(e).__name__}: {e}")], None, snap
     notes = {}
-    bad, obs = verify(m, snap, whole=whole, notes=notes)
+    bad, obs = verify(m, snap, whole=whole, notes=notes, selected=selected)
     if count:
         for kk, vv in notes.items():
             ctx.add_note(kk, vv)
@@ -722,8 +749,9 @@ def head_menu(ctx):
             for sp in rot(SPINS, s):
                 heads.append((c, q, sp, None))
     for h in (0, 1, 2, 3):
-        for c in rot(CENTRES, s):
-            qs = [(0, 0), (1, 0), (-1, 1), (0, 2)] if ctx.thorough else [(0, 0), (-1, 1)]  # a hint overrides charge and spin
+        for n, c in enumerate(rot(CENTRES, s)):
+            # a hint overrides charge and spin
+            qs = [(0, 0), (-1, 1)] if ctx.thorough else ([(0, 0), (-1, 1)] if n % 4 == h else [(0, 0)])
             for q, sp in qs:
                 heads.append((c, q, sp, h))
     return heads
@@ -742,7 +770,7 @@ def nbr_menu(ctx):
         el3 = [("C", "C", "C"), ("C", "H", "F"), ("C", "C", "M"), ("H", "M", "M"), ("M", "M", "M"), ("F", "F", "H"), ("C", "H", "H"), ("M", "C", "F")]
     else:
         el2 = [("C", "C"), ("H", "F"), ("C", "M"), ("M", "M")]
-        el3 = [("C", "C", "C"), ("C", "H", "F"), ("C", "C", "M"), ("M", "M", "M")]
+        el3 = [("C", "C", "C"), ("C", "H", "F"), ("C", "C", "M")]  # (M,M,M): thorough; (M,) and (M,M) stay
     for els in rot(el2, s):
         for b1 in bts:
             for b2 in bts:
@@ -770,8 +798,8 @@ def rt_selected(ctx, head):
     if ctx.thorough:
         return h is None or (q, sp) == (0, 0)
     if h is None:
-        return (q, sp) in ((0, 0), (1, 0), (-1, 1))
-    return h in (0, 2) and (q, sp) == (0, 0)
+        return (q, sp) in ((0, 0), (-1, 1))
+    return h == 0 and (q, sp) == (0, 0)
 
 
 def _flush_roundtrips(sub, batch, seed):
@@ -794,7 +822,8 @@ def _flush_roundtrips(sub, batch, seed):
 
 
 def _grammar_part(sub, part):
-    heads, nm, seed = part
+    heads, nm, seed = part[:3]
+    limit = part[3] if len(part) > 3 else None  # heads that run on the first `limit` poses only
     n_s = 0
     batch = []
     for head in heads:
@@ -802,15 +831,17 @@ def _grammar_part(sub, part):
         rts = rt_selected(sub, head)
         for k in (0, 1, 2, 3):
             pn = pose_menu(sub, k)
+            if limit is not None:
+                pn = pn[:limit]
             for els, bts in nm[k]:
                 for pname in pn:
                     case = {"kind": "environment", "centre": c, "charge": q, "spin": sp, "hint": h, "nbrs": [list(x) for x in zip(els, bts)], "pose": pname}
                     m = build(case, seed)
-                    # quick: the second (idempotence) call on the first two poses of every environment
-                    o, base = run_one(sub, m, case, second=sub.thorough or pname in pn[:2])
+                    # quick: the second (idempotence) call on the first pose (two for one neighbour) of every environment
+                    o, base = run_one(sub, m, case, second=sub.thorough or pname == pn[0] or (k == 1 and pname == pn[1]))
                     sub.outcome(o if o[0] != "ok" else ("ok", o[1][0][6:] if o[1] else None, len(o[1])))
                     # the same environment written with plain numbers
-                    if pname in pn[:2] if sub.thorough else (pname == pn[0] or (k == 1 and pname == pn[1])):
+                    if (pname in pn[:2]) if sub.thorough else (limit is None and (pname == pn[0] or (k == 1 and pname == pn[1]))):
                         c1 = {**case, "rep": "plain"}
                         o1, _ = run_one(sub, build(case, seed, rep="plain"), c1, second=False, variant=REP_CLASS["plain"], baseline=base)
                         sub.outcome(("plain", o1[0]) if o1[0] != "ok" else ("plain", "ok", o1[1][0][6:] if o1[1] else None))
@@ -900,21 +931,21 @@ def apply_edit(m, case, edit):
 def edit_menu(ctx, case):
     k = len(case["nbrs"])
     shifts = (1, 2, 3, 4)
-    few = shifts if ctx.thorough else (1, 3)
+    T = ctx.thorough
     out = []
     if k:
-        out += [["connect_like", j] for j in shifts]
+        out += [["connect_like", j] for j in (shifts if T else (1, 3))]
         out += [["connect_like-fewer-bonds", 0]]
-        out += [["del_bond+connect", j] for j in few]
+        out += [["del_bond+connect", j] for j in (shifts if T else (2,))]
         out += [["del_bond", 0]]
-        out += [["btype-assigned", j] for j in few]
-        out += [["btype-assigned-int", j] for j in few]
+        out += [["btype-assigned", j] for j in (shifts if T else (1,))]
+        out += [["btype-assigned-int", j] for j in (shifts if T else (3,))]
         if case["nbrs"][0][1] == "fractional":
-            out += [["f_order-assigned", 1.5]] + ([["f_order-assigned", 2.0]] if ctx.thorough else [])
-    out += [["formal_charge-assigned", q] for q in CHARGES if q != case["charge"]]
-    out += [["formal_spin-assigned", sp] for sp in SPINS if sp != case["spin"]]
+            out += [["f_order-assigned", 1.5]] + ([["f_order-assigned", 2.0]] if T else [])
+    out += [["formal_charge-assigned", q] for q in CHARGES if q != case["charge"]][: None if T else 1]
+    out += [["formal_spin-assigned", sp] for sp in (SPINS + [-1, -2]) if sp != case["spin"]][: None if T else 1]
     if case["hint"] is None:
-        out += [["hint-added", h] for h in ((0, 1, 2, 3) if ctx.thorough else (0, 2))]
+        out += [["hint-added", h] for h in ((0, 1, 2, 3) if T else (0,))]
     else:
         out += [["hint-removed", 0]]
     return out
@@ -993,6 +1024,360 @@ def _history_part(sub, part):
 
 
 # =================================================================================================
+# ownership: the molecule's atoms are (or were) also held by another container
+# =================================================================================================
+KEEP = []  # second containers that must stay alive while the call runs
+
+
+def _ap_direction(case):
+    k = len(case["nbrs"])
+    if k:
+        v = -np.sum(POSES[k][case["pose"]], axis=0)
+        if np.linalg.norm(v) > 0.3:
+            return unit(v)
+    return unit(np.array([0.36, 0.48, 0.8]))
+
+
+def apply_ownership(m, case, kind):
+    """-> the molecule to call on.  kind = '<container>-<which atoms>;<kept|dropped>' or a route by
+    which a molecule (and the parent links of its atoms) comes into being."""
+    import molli as ml
+
+    del KEEP[:]
+    k = len(case["nbrs"])
+    if kind.startswith(("promolecule", "connectivity", "structure")):
+        cont, fate = kind.split(";")
+        cls_name, which = cont.split("-")
+        cls = {"promolecule": ml.Promolecule, "connectivity": ml.Connectivity, "structure": ml.Structure}[cls_name]
+        if which == "all":
+            atoms = list(m.atoms)
+        elif which == "subset":
+            atoms = list(m.atoms)[: max(1, min(2, 1 + k))]  # the centre and its first neighbour
+        else:  # "others": everything but the centre
+            atoms = list(m.atoms)[1:]
+        w = cls(atoms)
+        if fate == "kept":
+            KEEP.append(w)
+        else:
+            del w
+        return m
+    if kind == "substructure;kept":
+        KEEP.append(m.substructure(list(m.atoms)[: 1 + k]))
+        return m
+    if kind == "copy-constructor;call-on-copy":
+        c = Molecule(m)
+        KEEP.append(m)
+        return c
+    if kind == "copy-constructor;call-on-original":
+        KEEP.append(Molecule(m))
+        return m
+    if kind == "deepcopy":
+        import copy
+
+        return copy.deepcopy(m)
+    if kind == "join":
+        ap1 = Atom(0, atype=AtomType.AttachmentPoint, label="ap1")
+        m.add_atom(ap1, m.coords[0] + _ap_direction(case) * 1.1)
+        m.connect(m.atoms[0], ap1)
+        c2, ap2 = Atom("C", label="jc"), Atom(0, atype=AtomType.AttachmentPoint, label="ap2")
+        f = Molecule([c2, ap2], copy_atoms=False)
+        f.coords = np.array([[0.0, 0.0, 0.0], [0.62, -0.51, 0.6]])
+        f.connect(c2, ap2)
+        return Molecule.join(m, f, ap1, ap2)
+    raise HarnessError(f"unknown ownership {kind}")
+
+
+OWN_KINDS = (
+    ["promolecule-all;kept", "promolecule-all;dropped", "promolecule-subset;kept", "promolecule-subset;dropped", "promolecule-others;kept", "promolecule-others;dropped"]
+    + ["connectivity-all;kept", "connectivity-all;dropped", "connectivity-subset;kept", "structure-all;kept", "structure-all;dropped", "structure-others;dropped"]
+    + ["substructure;kept", "copy-constructor;call-on-copy", "copy-constructor;call-on-original", "deepcopy", "join"]
+)
+
+
+def own_class(kind):
+    if ";" in kind and kind.split("-")[0] in ("promolecule", "connectivity", "structure"):
+        cont, fate = kind.split(";")
+        return f"atoms-also-wrapped-in-a-second-container;{fate}"
+    return kind
+
+
+def ownership_bases(ctx):
+    s = ctx.seed
+    heads = [(c, 0, 0, None) for c in rot(CENTRES, s)] + [(c, 0, 0, 1) for c in rot(CENTRES, s)[:: 1 if ctx.thorough else 2]]
+    if ctx.thorough:
+        heads += [(c, 1, 0, None) for c in CENTRES] + [(c, -1, 1, None) for c in CENTRES]
+    specs = [
+        ((), (), "none"),
+        (("C",), ("single",), "general"),
+        (("C",), ("double",), "+z"),
+        (("H",), ("single",), "-z"),
+        (("C", "C"), ("single", "aromatic"), "general-109"),
+        (("C", "M"), ("single", "single"), "first-bond+z-109"),
+        (("C", "H", "F"), ("single", "single", "single"), "general-tetrahedral"),
+    ]
+    if ctx.thorough:
+        specs += [(("C", "C"), ("aromatic", "aromatic"), "first-bond+z-109"), (("C", "C", "C"), ("single", "single", "fractional"), "axis-z-tetrahedral")]
+    return heads, specs
+
+
+def _ownership_part(sub, part):
+    heads, specs, seed = part
+    n = 0
+    for c, q, sp, h in heads:
+        for els, bts, pname in specs:
+            base = {"kind": "environment", "centre": c, "charge": q, "spin": sp, "hint": h, "nbrs": [list(x) for x in zip(els, bts)], "pose": pname}
+            for kind in OWN_KINDS:
+                case = {**base, "ownership": kind}
+                try:
+                    m = apply_ownership(build({**base, "nbrs": [tuple(x) for x in base["nbrs"]]}, seed), base, kind)
+                except Exception as e:
+                    sub.violation(f"ownership[{own_class(kind)}]:setup-raised:{type(e).__name__}", f"preparing the molecule raised {type(e).__name__}: {e}", case)
+                    continue
+                sub.count(transitions=1)
+                o, _ = run_one(sub, m, case, whole=True, variant=f"ownership[{own_class(kind)}]", baseline=None)
+                del KEEP[:]
+                sub.outcome(("ownership", kind, o[0]) if o[0] != "ok" else ("ownership", o[1][0][6:] if o[1] else None))
+                sub.nontrivial((c, q, sp, h, els, bts, kind))
+                sub.add_note("ownership_cases")
+                n += 1
+                if n % 701 == 1:
+                    sub.sample({**case, "outcome": o[0]})
+
+
+# =================================================================================================
+# call sequences: explicit-atom calls on subsets, in every order
+# =================================================================================================
+_MODES = []
+
+
+def addressing_modes(ctx=None):
+    """the ways of naming an atom that add_implicit_hydrogens(*atoms) accepts on this tree (probed on
+    a two-atom molecule whose result is known)."""
+    if _MODES:
+        return _MODES
+    bad = {}
+    for mode in ("object", "index", "label"):
+        a = [Atom("O", label="a0"), Atom("C", label="a1")]
+        m = Molecule(a, copy_atoms=False)
+        m.coords = np.array([[0.0, 0.0, 0.0], [1.4, 0.0, 0.3]])
+        m.append_bond(Bond(a[0], a[1]))
+        try:
+            with warnings.catch_warnings():
+                warnings.simplefilter("ignore")
+                m.add_implicit_hydrogens({"object": a[0], "index": 0, "label": "a0"}[mode])
+            if m.n_atoms == 3:
+                _MODES.append(mode)
+            else:
+                bad[mode] = f"added {m.n_atoms - 2}"
+        except Exception as e:
+            bad[mode] = f"{type(e).__name__}: {e}"
+    if ctx is not None:
+        ctx.note("explicit_call_addressing_modes_used", list(_MODES))
+        ctx.note("explicit_call_addressing_modes_rejected_by_this_tree", bad)
+    if not _MODES:
+        _MODES.append("object")
+    return _MODES
+
+
+def ordered_partitions(items, nblocks):
+    """every ordered partition of `items` into exactly `nblocks` non-empty blocks"""
+    items = list(items)
+    out = []
+    for assign in itertools.product(range(nblocks), repeat=len(items)):
+        if len(set(assign)) != nblocks:
+            continue
+        out.append([[x for x, b in zip(items, assign) if b == j] for j in range(nblocks)])
+    return out
+
+
+def run_sequence(ctx, make, case, base, whole):
+    """make() -> fresh molecule.  case['sequence'] = {blocks, final, modes}.  Every call of the sequence
+    is judged on its own: named atoms get their count (hint where present, else formula), all others
+    nothing.  Reported as <family>@call-sequence[...] for what the one-call run (base) does not show."""
+    seq = case["sequence"]
+    m = make()
+    atoms0 = list(m.atoms)
+    hints0 = [a.attrib.get(HINT) for a in atoms0]
+    owed = list(hints0)
+    shape = seq["shape"]
+    steps = list(zip(seq["blocks"], seq["modes"]))
+    for n, (block, mode) in enumerate(steps):
+        last_default = seq["final"] == "default" and n == len(steps) - 1
+        if last_default:
+            args, selected = None, None
+        else:
+            args = [atoms0[i] if mode == "object" else (i if mode == "index" else atoms0[i].label) for i in block]
+            selected = set(block)
+        bad, obs, snap = evaluate(ctx, m, whole=True, second=False, args=args, selected=selected, hints=owed)
+        for i in (block if not last_default else range(len(owed))):
+            owed[i] = None  # completed: from now on the formula (with its hydrogens counted) says 0 or more
+        new = [(f"{family(s)}@call-sequence[{shape}]", w) for s, w in bad if s not in base]
+        seen = set()
+        new = [(s, w) for s, w in new if not (s in seen or seen.add(s))]
+        for sig, what in new:
+            ctx.violation(sig, f"{what} [call {n + 1} of {len(steps)}: {'default call' if last_default else 'atoms ' + str(block) + ' by ' + mode}; hints at the start {[(i, h) for i, h in enumerate(hints0) if h is not None]}]", case)
+        if bad:
+            return ("bad", tuple(sorted(s for s, _ in new)))
+    if seq["final"] == "explicit" and all(h is None for h in hints0):
+        # every atom has been completed once and no hint was ever involved: a default call adds nothing
+        bad, _, _ = evaluate(ctx, m, whole=True, second=False)
+        new = [(f"{family(s)}@call-sequence[{shape};then-default-call]", w) for s, w in bad if s not in base]
+        for sig, what in new[:1]:
+            ctx.violation(sig, what, case)
+        if new:
+            return ("bad", (new[0][0],))
+    return ("ok", m.n_atoms - len(atoms0))
+
+
+def sequences_for(ctx, scope, hints, full=True):
+    """the menu of call sequences for the in-scope atom indices `scope` (hints: index -> hint or None)"""
+    modes = addressing_modes()
+    out = []
+
+    def add(blocks, final, shape):
+        ms = [modes[(len(out) + j) % len(modes)] for j in range(len(blocks))]
+        out.append({"blocks": blocks, "final": final, "modes": ms, "shape": shape})
+
+    for i in scope:
+        add([[i]], "explicit", "single-atom")
+    if len(scope) < 2:
+        return out
+    parts = ordered_partitions(scope, 2)
+    if len(scope) >= 3 and (full or len(scope) == 3):
+        parts += ordered_partitions(scope, 3)
+    for blocks in parts:
+        add(blocks, "explicit", "explicit-subsets")
+        # the remaining atoms through a default call: judged where the atoms completed before are hint-free
+        if all(hints.get(i) is None for b in blocks[:-1] for i in b):
+            add(blocks, "default", "explicit-subsets-then-default-for-the-rest")
+    return out
+
+
+def sequence_envs(ctx):
+    s = ctx.seed
+    heads = [(c, 0, 0) for c in rot(CENTRES, s)] + [("O", 0, 1), ("N", 0, 1), ("S", 0, 2)]
+    if ctx.thorough:
+        heads += [(c, 1, 0) for c in CENTRES] + [(c, -1, 1) for c in CENTRES]
+    specs = [
+        (("C",), ("single",), "general"),
+        (("C",), ("double",), "+x"),
+        (("C", "C"), ("single", "double"), "general-109"),
+        (("C", "H"), ("single", "single"), "first-bond+z-109"),
+        (("C", "C", "C"), ("single", "single", "single"), "general-tetrahedral"),
+    ]
+    envs = []
+    for c, q, sp in heads:
+        for els, bts, pname in specs:
+            k = len(els)
+            f_c = due(Z_OF[c], q, sp, sum(BT_ORDER[b] for b in bts), None)
+            opts_c = [None] + ([0] if f_c > 0 else []) + ([f_c + 1] if f_c + 1 <= 3 and k + f_c + 1 <= 4 else [])
+            f_n = due(6, 0, 0, BT_ORDER[bts[0]], None)
+            opts_n = [None] + ([0] if f_n > 0 else []) + ([f_n + 1] if f_n + 1 <= 3 else [])
+            for hc in opts_c:
+                for hn in opts_n:
+                    envs.append({"kind": "environment", "centre": c, "charge": q, "spin": sp, "hint": hc, "nbrs": [list(x) for x in zip(els, bts)], "nbr_hints": [hn] + [None] * (k - 1), "pose": pname})
+    return envs
+
+
+def _one_call_baseline(ctx, make, whole):
+    b, _, _ = evaluate(ctx, make(), whole=whole, second=False, count=False)
+    return {x for x, _ in b}
+
+
+def _sequence_part(sub, part):
+    envs, seed = part
+    n = 0
+    for base_case in envs:
+        c = {**base_case, "nbrs": [tuple(x) for x in base_case["nbrs"]]}
+        make = lambda c=c: build(c, seed)
+        base = _one_call_baseline(sub, make, False)
+        scope = [0] + [1 + i for i, (el, _) in enumerate(c["nbrs"]) if el == "C"]
+        hints = {0: c["hint"]}
+        for i, h in enumerate(c.get("nbr_hints") or ()):
+            hints[1 + i] = h
+        for seq in sequences_for(sub, scope, hints, full=sub.thorough):
+            case = {**base_case, "sequence": seq}
+            o = run_sequence(sub, make, case, base, False)
+            sub.outcome(("sequence", seq["shape"], o[0], o[1] if o[0] == "ok" else None))
+            sub.nontrivial((base_case["centre"], base_case["charge"], base_case["spin"], base_case["hint"], tuple(base_case["nbr_hints"]), tuple(map(tuple, base_case["nbrs"])), repr(seq["blocks"]), seq["final"]))
+            sub.add_note("call_sequences")
+            n += 1
+            if n % 1501 == 1:
+                sub.sample({**case, "outcome": o[0]})
+
+
+def cdxml_schemes(scope, hints):
+    """a few partitions of the atoms of a whole molecule, each in every order of its blocks"""
+    out = []
+    hinted = [i for i in scope if hints.get(i) is not None]
+    plain = [i for i in scope if hints.get(i) is None]
+    cands = []
+    if hinted and plain:
+        cands.append([plain, hinted])
+    cands.append([scope[0::2], scope[1::2]])
+    cands.append([scope[0::3], scope[1::3], scope[2::3]])
+    for blocks in cands:
+        blocks = [b for b in blocks if b]
+        if len(blocks) < 2:
+            continue
+        for perm in itertools.permutations(blocks):
+            out.append([list(b) for b in perm])
+    return out
+
+
+def _cdxml_sequence_part(sub, part):
+    import molli
+    from molli.ftypes.cdxml import CDXMLFile
+
+    root = Path(molli.__file__).resolve().parent / "files"
+    modes = addressing_modes()
+    for fname in part:
+        path = [p for p in root.rglob("*.cdxml") if p.name == fname][0]
+        with warnings.catch_warnings():
+            warnings.simplefilter("ignore")
+            f = CDXMLFile(path)
+        jobs = [("label", k) for k in f.keys()]
+        seen = set()
+        for kind, k in jobs + [("fragment", i) for i in range(len(f.xfrags))]:
+
+            def make(kind=kind, k=k):
+                with warnings.catch_warnings():
+                    warnings.simplefilter("ignore")
+                    return f[k] if kind == "label" else f._parse_fragment(f.xfrags[k], name=f"fragment{k}")
+
+            try:
+                m0 = make()
+                if kind == "label":
+                    seen.add(id(f.xfrag_cache.get(k)))
+                elif id(f.xfrags[k]) in seen:
+                    continue
+            except Exception:
+                continue
+            scope = [i for i, a in enumerate(m0.atoms) if int(a.element) in GROUP]
+            hints = {i: a.attrib.get(HINT) for i, a in enumerate(m0.atoms)}
+            if len(scope) < 2:
+                continue
+            base = _one_call_baseline(sub, make, True)
+            seqs = []
+            for blocks in cdxml_schemes(scope, hints):
+                seqs.append({"blocks": blocks, "final": "explicit", "shape": "explicit-subsets"})
+                if all(hints.get(i) is None for b in blocks[:-1] for i in b):
+                    seqs.append({"blocks": blocks, "final": "default", "shape": "explicit-subsets-then-default-for-the-rest"})
+            if not sub.thorough and len(scope) > 12:
+                # large fragments: hinted/unhinted in both orders (explicit and default ending), even/odd once
+                seqs = [q for q in seqs if len(q["blocks"]) == 2][:6]
+            for n, seq in enumerate(seqs):
+                seq["modes"] = [modes[(n + j) % len(modes)] for j in range(len(seq["blocks"]))]
+                case = {"kind": "cdxml", "file": fname, "by": kind, "key": k, "sequence": seq}
+                o = run_sequence(sub, make, case, base, True)
+                sub.outcome(("cdxml-sequence", seq["shape"], o[0]))
+                sub.nontrivial((fname, kind, k, repr(seq["blocks"])[:80], seq["final"]))
+                sub.add_note("call_sequences_on_cdxml_fragments")
+            if len(sub.samples) < 2 and seqs:
+                sub.sample({"kind": "cdxml", "file": fname, "by": kind, "key": k, "sequence": {**seqs[0], "blocks": [b[:6] for b in seqs[0]["blocks"]]}})
+
+
+# =================================================================================================
 # whole molecules
 # =================================================================================================
 def _whole_one(ctx, load, case, keyclass):
@@ -1010,6 +1395,17 @@ def _whole_one(ctx, load, case, keyclass):
         ctx.count(transitions=2)
         o2, _ = run_one(ctx, m2, {**case, "rep": kind}, whole=True, keyclass=keyclass, variant=REP_CLASS[kind], baseline=base)
         ctx.outcome((case["kind"], kind, o2[0], m2.n_atoms - n_before))
+    import molli as ml
+
+    for kind in ("promolecule-all;kept", "promolecule-all;dropped", "connectivity-all;dropped"):
+        m3 = load()
+        w = (ml.Promolecule if kind.startswith("promolecule") else ml.Connectivity)(list(m3.atoms))
+        if kind.endswith("dropped"):
+            del w
+        ctx.count(transitions=1)
+        o3, _ = run_one(ctx, m3, {**case, "ownership": kind}, whole=True, keyclass=keyclass, variant=f"ownership[{own_class(kind)}]", baseline=base)
+        w = None
+        ctx.outcome((case["kind"], kind, o3[0], m3.n_atoms - n_before))
     return m, n_before, o
 
 
@@ -1075,6 +1471,12 @@ def _dispatch(sub, part):
         whole_molecules(sub)
     elif part[0] == "history":
         _history_part(sub, part[1])
+    elif part[0] == "ownership":
+        _ownership_part(sub, part[1])
+    elif part[0] == "sequence":
+        _sequence_part(sub, part[1])
+    elif part[0] == "cdxml-sequence":
+        _cdxml_sequence_part(sub, part[1])
     else:
         _grammar_part(sub, part[1])
 
@@ -1120,6 +1522,23 @@ def validate_poses(ctx, nm):
                             raise HarnessError(f"degenerate pose {pname} for {els}: centre in the neighbours' plane")
 
 
+class _Launcher(Ctx):
+    def __init__(self, *a, **k):
+        super().__init__(*a, **k)
+        self.buffer = []
+
+    def merge(self, d):
+        self.buffer.append(d)
+
+    def __getstate__(self):
+        return {"pid": self.pid, "tier": self.tier, "seed": self.seed, "level": self.level, "scratch": self.scratch, "deadline": self.deadline}
+
+    def __setstate__(self, st):
+        Ctx.__init__(self, st["pid"], st["tier"], st["seed"], st["level"], st["scratch"])
+        self.deadline = st["deadline"]
+        self.buffer = []
+
+
 def run(ctx):
     ctx.rule = (
         "every environment of the grammar (centre x charge x spin x hint x neighbour elements x bond types x pose) and every "
@@ -1135,6 +1554,8 @@ def run(ctx):
         "direction clause: every new hydrogen individually when the atom ends with <= 4 substituents; when a hint over-saturates the atom (neighbours + hydrogens > 4) the mean direction of its new hydrogens must point away",
         "covalent radii: Pyykko & Atsumi 2009 single-bond radii; 'at the sum of covalent radii' is judged to 1e-3 A (the precision of the structure file formats); deviations above 1e-6 A are counted in a note (the two-hydrogen branch uses 4-digit sin/cos constants: 5.6e-5 A)",
         "representations and histories: the expected counts are always computed from what the molecule object holds right before the call (bond type numbers, f_order, formal charge/spin, hint), the order of an int-typed bond being that of the enum member with the same value; a failure of a variant (plain numbers, library/pickle round trip, query+edit history) is reported under '<symptom family>@<variant class>' and only for what the same molecule built plainly does not show",
+        "explicit-atom calls add_implicit_hydrogens(*atoms) are judged call by call: the named atoms receive their count (hint where present, else formula), every other atom nothing; atoms are named in the ways this tree accepts (probed; rejected ways are listed in the notes, not judged); a default call after explicit calls is judged only where the atoms completed before it never had a hint (the property grants idempotence to hint-free atoms only: an atom completed by a hint smaller than the formula value is topped up by a later default call, which the property does not forbid)",
+        "ownership: wrapping the atoms in a second container, copying, joining etc. are pre-histories; the frame condition after the call is unchanged (old atom list + new hydrogens, no object twice, finite coordinates)",
         "seeds turn every pose about the z axis (so that z-aligned poses stay z-aligned), change the centre position and bond lengths and rotate the alphabets",
     ]
     tables_vs_molli(ctx)
@@ -1151,8 +1572,35 @@ def run(ctx):
     hheads, hspecs = history_bases(ctx)
     ctx.bound["history_bases"] = len(hheads) * len(hspecs)
     ctx.bound["history"] = "queries " + "/".join(QUERIES) + " x edits connect_like (4 retypings, 1 bond fewer), del_bond(+connect), btype/f_order/formal_charge/formal_spin assigned in place, hint added/removed"
-    nparts = 64 if ctx.thorough else 16
+    nparts = 64 if ctx.thorough else 24
     parts = [("whole", None)]
+    # negative spins: the count depends on |spin| only; every centre x charge x {-1,-2} x every neighbour
+    # specification, on the first pose(s)
+    neg_heads = [(c, q, sp, None) for c in rot(CENTRES, ctx.seed) for q in CHARGES for sp in (-1, -2)]
+    ctx.bound["negative_spin_heads"] = len(neg_heads)
+    nn = 8
+    for i in range(nn):
+        hs = neg_heads[i::nn]
+        if hs:
+            parts.append(("grammar", (hs, nm, ctx.seed, 2 if ctx.thorough else 1)))
+    oheads, ospecs = ownership_bases(ctx)
+    ctx.bound["ownership"] = f"{len(oheads) * len(ospecs)} environments x {len(OWN_KINDS)} ways in which the atoms are (or were) also held by another container / the molecule came into being; whole molecules x 3"
+    for i in range(4):
+        hs = oheads[i::4]
+        if hs:
+            parts.append(("ownership", (hs, ospecs, ctx.seed)))
+    addressing_modes(ctx)
+    senvs = sequence_envs(ctx)
+    ctx.bound["call_sequences"] = f"{len(senvs)} environments with hints that differ from the formula value x (single-atom calls, every ordered partition of the atoms into 2..3 explicit calls, the last block also through a default call); every CDXML fragment x hinted/unhinted, even/odd, mod-3 partitions in every order"
+    ns = 8
+    for i in range(ns):
+        es = senvs[i::ns]
+        if es:
+            parts.append(("sequence", (es, ctx.seed)))
+    import molli as _ml
+
+    for p in sorted((Path(_ml.__file__).resolve().parent / "files").rglob("*.cdxml")):
+        parts.append(("cdxml-sequence", [p.name]))
     nh = 16 if ctx.thorough else 8
     for i in range(nh):
         hs = hheads[i::nh]
@@ -1162,7 +1610,17 @@ def run(ctx):
         hs = heads[i::nparts]
         if hs:
             parts.append(("grammar", (hs, nm, ctx.seed)))
-    ctx.pmap(_dispatch, parts, nproc=int(os.environ.get("VERIF_NPROC", "0")) or min(16, os.cpu_count() or 1))
+    # longest parts first (the partition only changes wall time)
+    weight = {"grammar": 0, "whole": 1, "cdxml-sequence": 2, "history": 3, "sequence": 4, "ownership": 5}
+    parts.sort(key=lambda p: (1 if (p[0] == "grammar" and len(p[1]) > 3) else weight[p[0]]))
+    # core.Ctx.pmap pickles the parent context with every job while the main thread merges finished
+    # parts into it; with many parts that races ("set changed size during iteration").  The jobs are
+    # therefore launched from a context that pickles to its identity only and buffers the results.
+    launcher = _Launcher(ctx.pid, ctx.tier, ctx.seed, ctx.level, ctx.scratch)
+    launcher.deadline = ctx.deadline
+    launcher.pmap(_dispatch, parts, nproc=int(os.environ.get("VERIF_NPROC", "0")) or min(16, os.cpu_count() or 1))
+    for d in launcher.buffer:
+        ctx.merge(d)
 
 
 def replay(ctx, case):
@@ -1180,6 +1638,34 @@ def replay(ctx, case):
         b, _, _ = evaluate(ctx, mol, whole=whole, second=False, keyclass=keyclass, count=False)
         return {x for x, _ in b}
 
+    if case.get("sequence"):
+        addressing_modes()
+        if kind == "environment":
+            c = {**case, "nbrs": [tuple(x) for x in case["nbrs"]]}
+            make = lambda: build(c, ctx.seed)
+            run_sequence(ctx, make, case, _one_call_baseline(ctx, make, False), False)
+        else:
+            import molli
+            from molli.ftypes.cdxml import CDXMLFile
+
+            p = [q for q in (Path(molli.__file__).resolve().parent / "files").rglob("*.cdxml") if q.name == case["file"]][0]
+            with warnings.catch_warnings():
+                warnings.simplefilter("ignore")
+                f = CDXMLFile(p)
+
+            def make():
+                with warnings.catch_warnings():
+                    warnings.simplefilter("ignore")
+                    return f[case["key"]] if case["by"] == "label" else f._parse_fragment(f.xfrags[case["key"]], name=f"fragment{case['key']}")
+
+            run_sequence(ctx, make, case, _one_call_baseline(ctx, make, True), True)
+        return
+    if case.get("ownership") and kind == "environment":
+        c = {**case, "nbrs": [tuple(x) for x in case["nbrs"]]}
+        m = apply_ownership(build(c, ctx.seed), c, case["ownership"])
+        run_one(ctx, m, case, whole=True, variant=f"ownership[{own_class(case['ownership'])}]", baseline=None)
+        del KEEP[:]
+        return
     if kind == "environment":
         base = members_baseline(materialise({**case, "rep": "members"}, ctx.seed, ctx.scratch), False)
         m = materialise(case, ctx.seed, ctx.scratch)
@@ -1204,7 +1690,18 @@ def replay(ctx, case):
     else:
         raise HarnessError(f"unknown case kind {kind!r}")
     base = None
-    if rep != "members":
+    w = None
+    if case.get("ownership"):
+        import molli as ml
+
+        okind = case["ownership"]
+        b, _, _ = evaluate(ctx, roundtrip(ctx.scratch, [m], "pickle")[0], whole=True, second=False, keyclass=keyclass, count=False)
+        base = {x for x, _ in b}
+        w = (ml.Promolecule if okind.startswith("promolecule") else ml.Connectivity)(list(m.atoms))
+        if okind.endswith("dropped"):
+            w = None
+        variant = f"ownership[{own_class(okind)}]"
+    elif rep != "members":
         m2 = roundtrip(ctx.scratch, [m], rep)[0]
         base = members_baseline(m, True, keyclass)
         m = m2
